@@ -9,8 +9,8 @@ package main
 
 import (
 	"fmt"
-	"strings"
 	"go/token"
+	"strings"
 
 	"golang.org/x/tools/go/ssa"
 )
